@@ -222,19 +222,24 @@ class Theory:
                 for c in b.children():
                     prod = prod * (self.pow(a, c))
                 out.append(z3.Implies(a > 0, t == prod))
-            elif bk == z3.Z3_OP_MUL:
-                ch = b.children()
-                consts = [c for c in ch if ground(c) is not None]
-                rest = [c for c in ch if ground(c) is None]
-                if consts and rest:
-                    kf = fractions.Fraction(1)
-                    for c in consts:
-                        kf *= ground(c)
-                    restt = rest[0]
-                    for c in rest[1:]:
-                        restt = restt * c
-                    if kf.denominator == 1 and abs(kf.numerator) <= 8:
-                        out.append(z3.Implies(a > 0, t == ipow(self.pow(a, restt), kf.numerator)))
+            elif bk in (z3.Z3_OP_MUL, z3.Z3_OP_DIV):
+                # exponent = (integer literal) * rest, in any spelling (2*u, u*2, 2/x, (2*u)/v ...): pow(a, k*rest) = pow(a, rest)^k
+                fs = factors(b)
+                kf = fractions.Fraction(1)
+                rest = []
+                for f, e in fs:
+                    gf = ground(f)
+                    if gf is not None and gf != 0:
+                        kf *= gf ** e
+                    else:
+                        rest.append((f, e))
+                if rest and kf != 1 and kf.denominator == 1 and abs(kf.numerator) <= 8:
+                    restt = z3.RealVal(1)
+                    for f, e in rest:
+                        restt = restt * ipow(f, e) if e >= 0 else restt / ipow(f, -e)
+                    restt = z3.simplify(restt)
+                    nz = [f != 0 for f, e in rest if e < 0]
+                    out.append(z3.Implies(z3.And([a > 0] + nz), t == ipow(self.pow(a, restt), kf.numerator)))
             elif bk == z3.Z3_OP_UMINUS:
                 out.append(z3.Implies(a > 0, t * self.pow(a, b.arg(0)) == 1))
             if is_uf(a, "pow"):
@@ -312,6 +317,29 @@ class Theory:
             if len(str(na)) < len(str(a)):
                 other = self.sin(na) if F is SIN else self.cos(na)
                 out.append(t == (parity * other))
+            else:
+                # a product / quotient with an odd number of negative numeric factors, e.g. 1/(-1*x): relate to the positive-spelled argument
+                fs = factors(a)
+                if len(fs) > 1:
+                    flips, parts = 0, []
+                    for f, e in fs:
+                        g2 = ground(f)
+                        if g2 is not None and g2 < 0:
+                            if e % 2:
+                                flips += 1
+                            f = Q(-g2)
+                        parts.append((f, e))
+                    if flips % 2 == 1:
+                        b = z3.RealVal(1)
+                        for f, e in parts:
+                            if ground(f) is not None and ground(f) == 1:
+                                continue
+                            b = b * ipow(f, e) if e >= 0 else b / ipow(f, -e)
+                        b = z3.simplify(b)
+                        if not b.eq(a):
+                            nz = [f != 0 for f, e in parts if e < 0]
+                            other = self.sin(b) if F is SIN else self.cos(b)
+                            out.append(z3.Implies(z3.And(nz) if nz else z3.BoolVal(True), t == (parity * other)))
             return out
 
         return self._mk(t, ax)
